@@ -284,6 +284,10 @@ def _render_task(spec, t, ind: str, kid: bool) -> list[str]:
         deco.append("after=" + (tname(at[0]) if len(at) == 1 and t.get("after_style") != "list" else "[" + ", ".join(tname(a) for a in at) + "]"))
     if t.get("try_first"):
         L.append(f"{ind}@pytask.mark.try_first")
+    if t.get("uncollectable"):
+        # both priority marks: pytask_collect_task_protocol reports FAIL for this task (it cannot be collected)
+        L.append(f"{ind}@pytask.mark.try_first")
+        L.append(f"{ind}@pytask.mark.try_last")
     if deco:
         L.append(f"{ind}@task({', '.join(deco)})")
     fname = f"_k{t['id']}" if kid else tname(t["id"])
@@ -412,7 +416,7 @@ def model_lines(spec):
             f"prov.task id={t['id']} src={SRC_NODE} cnt={'none' if t.get('cnt') is None else t['cnt']} "
             f"deps={','.join(map(str, t['deps']))} pdeps={_slots(spec, t['pdeps'])} prods={','.join(map(str, t['prods']))} "
             f"pprods={_slots(spec, t['pprods'])} after={','.join(map(str, after_ids(spec, t)))} gen={1 if t.get('gen') else 0} fails={1 if t.get('fails') else 0} "
-            f"parent={'none' if t.get('parent') is None else t['parent']}")
+            f"parent={'none' if t.get('parent') is None else t['parent']} unc={1 if t.get('uncollectable') else 0}")
     for g, base in spec.get("perfile", {}).items():
         lines.append(f"prov.perfile gen={g} base={base}")
     return lines
@@ -713,6 +717,8 @@ def gen_spec(rng, *, overlap_p=0.08, fail_p=0.06):
                     k = {"id": new_tid(), "cnt": None, "deps": [new_node(rng.randint(1, 50))] if rng.random() < 0.6 else [], "pdeps": [],
                          "prods": [new_node()], "pprods": [], "gen": False, "fails": False, "parent": g["id"], "pstyle": "param",
                          "dstyle": "default"}
+                if rng.random() < 0.1:
+                    k["uncollectable"] = True     # collection of this defined task fails: the generator itself must FAIL (f1fcb9a)
                 tasks.append(k)
     # a custom `name=` on the DirectoryNodes of some tasks (a label only: producer and consumer still share one node)
     for t in tasks:
